@@ -352,7 +352,7 @@ func (a *Adversary) support(h uint64) bool {
 	if a.r.Intn(4) == 0 { // also nodes that lag behind: the messages sit in their future cache
 		targets = append(targets, a.below(h)...)
 		if a.r.Intn(2) == 0 {
-			inst = uint64(spi.OtherInstanceId)
+			inst = a.otherInst()
 		}
 	}
 	if a.r.Intn(5) == 0 {
@@ -590,7 +590,7 @@ func (a *Adversary) forgedNV(h uint64) bool {
 		case 3: // duplicates of the leader's own vote
 			vt = a.mkVote(leader, inst, h, v, nil)
 		case 7: // the member's genuine vote of the OTHER instance (same keys) for this height and view
-			vt = &ref.Vote{Type: ref.VC, Inst: uint64(spi.OtherInstanceId), H: h, V: v}
+			vt = &ref.Vote{Type: ref.VC, Inst: a.otherInst(), H: h, V: v}
 			vt.Sender = ref.Sig{Id: id, Sig: a.signOther(id, h, vt.HeaderBytes())}
 		case 4: // outsider votes with valid keys
 			if len(a.outs) == 0 {
@@ -1041,7 +1041,7 @@ func (a *Adversary) mutate(h uint64) bool {
 			m.Share = a.share(m.Sender.Id, m.H)
 		}
 	case 2:
-		m.Inst = uint64(spi.OtherInstanceId)
+		m.Inst = a.otherInst()
 		resign = true
 	case 3:
 		m.H = m.H + 1
@@ -1218,7 +1218,7 @@ func (a *Adversary) signOther(id string, h uint64, raw []byte) []byte {
 // current height of some node or into the future cache of a lagging one.
 func (a *Adversary) crossInstance(h uint64) bool {
 	c := a.w.Comm(h)
-	oi := uint64(spi.OtherInstanceId)
+	oi := a.otherInst()
 	targets := a.at(h)
 	if a.r.Intn(2) == 0 {
 		targets = append(targets, a.below(h)...)
@@ -1386,7 +1386,7 @@ func (a *Adversary) splicedProof(h, v uint64, blk *spi.Blk) *ref.Proof {
 // otherInstanceProof: what a quorum of members genuinely signed in the parallel instance for blk at view pv.
 func (a *Adversary) otherInstanceProof(h, pv uint64, blk *spi.Blk) *ref.Proof {
 	c := a.w.Comm(h)
-	oi := uint64(spi.OtherInstanceId)
+	oi := a.otherInst()
 	pp := &ref.Ref{Type: ref.PP, Inst: oi, H: h, V: pv, Hash: spi.HashOf(blk)}
 	pr := &ref.Ref{Type: ref.P, Inst: oi, H: h, V: pv, Hash: spi.HashOf(blk)}
 	leader := c.Leader(pv)
@@ -1676,3 +1676,6 @@ func (a *Adversary) crossViewProof(h, v uint64) (*ref.Proof, *spi.Blk) {
 	}
 	return nil, nil
 }
+
+// otherInst: the id of the parallel instance run by the same members with the same keys.
+func (a *Adversary) otherInst() uint64 { return a.w.Cfg.OtherInstId() }
